@@ -134,13 +134,69 @@ def parallel_runs(ctx, replay=None):
     return {"violations": viol, "disagreements": [], "coverage": {"rendezvous_runs": done, "rendezvous_nontrivial": nontriv}}
 
 
+def stale_check_runs(ctx, replay=None):
+    """`stale_check_max_workers`: that many modified-time queries run concurrently when at least that many are independent —
+    and never more; when it is not given, `max_workers` is the limit of the stale check too."""
+    import datetime as dt
+
+    import uberjob
+    configs = [replay["stale_cfg"]] if replay else [(1, 3), (4, 2), (3, None), (2, 2), (5, 1)]
+    viol, done = [], 0
+    for mw, sw in configs:
+        k = 5
+        limit = sw if sw is not None else mw
+        target = min(limit, k)
+        cond = threading.Condition()
+        state = {"in": 0, "peak": 0, "ok": False}
+
+        class S(uberjob.ValueStore):
+            def read(self):
+                return 0
+
+            def write(self, value):
+                pass
+
+            def get_modified_time(self):
+                with cond:
+                    state["in"] += 1
+                    state["peak"] = max(state["peak"], state["in"])
+                    if state["in"] >= target:
+                        state["ok"] = True
+                        cond.notify_all()
+                    else:
+                        cond.wait_for(lambda: state["ok"], timeout=6.0)
+                # stay inside a little longer, so that a surplus worker would be seen
+                time.sleep(0.02)
+                with cond:
+                    state["in"] -= 1
+                return dt.datetime(2020, 1, 1)
+
+        plan, reg = uberjob.Plan(), uberjob.Registry()
+        srcs = [reg.source(plan, S()) for _ in range(k)]
+        uberjob.run(plan, registry=reg, output=srcs, max_workers=mw, stale_check_max_workers=sw, progress=None)
+        done += 1
+        if state["peak"] != target:
+            viol.append({"property": "C10", "what": f"max_workers={mw}, stale_check_max_workers={sw}: {state['peak']} modified-time queries "
+                         f"ran concurrently with {k} independent stores, expected exactly {target}",
+                         "replay_fn": "stale_check", "stale_cfg": [mw, sw]})
+            break
+    return {"violations": viol, "disagreements": [], "coverage": {"stale_check_rendezvous_runs": done}}
+
+
 def extras(ctx, replay=None):
     from harness import retry_corr
     if replay is not None:
         if replay.get("replay_fn") == "retry_diff":
             return retry_corr.retry_diff(ctx, replay=replay)
+        if replay.get("replay_fn") == "stale_check":
+            r = stale_check_runs(ctx, replay=replay)
+            return r["violations"][0]["what"] if r["violations"] else None
         return parallel_runs(ctx, replay=replay)
     a = parallel_runs(ctx)
+    if not a["violations"]:
+        sc_ = stale_check_runs(ctx)
+        a["violations"] += sc_["violations"]
+        a["coverage"].update(sc_["coverage"])
     b = retry_corr.retry_diff(ctx)
     cov = dict(a.get("coverage", {}))
     cov.update({"retry_" + k: v for k, v in b.get("coverage", {}).items() if k not in ("samples", "rule")})
